@@ -20,7 +20,9 @@ RULE = ('one case = one generated method: a signature of <= 3 (thorough 4) param
         'none, an exclusion predicate (same predicate given to validator and extractor) or none, as plain function or view '
         'method; documented by OpenAPI 3.1 (request schema, refs resolved) and OpenRPC (params list) with the pydantic '
         'extractor. The dispatcher itself is the reference for "accepted": params objects over ALL subsets of (documented '
-        'names + one undocumented name + the context name + the excluded name) are dispatched with the base validator and the '
+        'names + one undocumented name + the context name + the excluded name) are dispatched (base validator, or the pydantic '
+        'validator in its default / extra="ignore" / extra="allow" configurations; for views the designated context name equals '
+        'an ordinary parameter name) and the '
         'acceptance (-32602 or not) is compared with the document\'s prediction (names within properties and required within '
         'names); the documented name / required sets are also compared with the signature. One evaluation = one (method, '
         'document kind, params object). Distinct = distinct (signature, configuration, kind, subset).')
@@ -39,7 +41,9 @@ ANCHORS = [
 ]
 FLOORS = {'*': {**{f'{k}:{w}': 10 for k in ('openapi', 'openrpc') for w in ('context', 'exclusion', 'keyword-only', 'view')},
                 'context:not-first': 20, 'context:positional': 10, 'subsets-dispatched': 3000, 'accepted': 300, 'refused': 1000,
-                'methods': 100, 'twin-registration': 30, 'exclusion:by-name': 30, 'exclusion:default-none': 30, 'exclusion:by-annotation': 30}}
+                'methods': 100, 'twin-registration': 30, 'exclusion:by-name': 30, 'exclusion:default-none': 30, 'exclusion:by-annotation': 30,
+                'validator:base': 100, 'validator:pydantic': 30, 'validator:pydantic:extra-ignore': 30, 'validator:pydantic:extra-allow:as-is': 30,
+                'view:context-name-equals-a-parameter-name': 30}}
 
 
 def render(params, ctx_at, ctx_name, skip, as_view):
@@ -92,7 +96,22 @@ def documented(kind, doc, key):
     return list(params.get('properties', {})), list(params.get('required', []))
 
 
-def run_method(ctx, params, ctx_at, positional, skip, style):
+VALIDATORS = ['base', 'pydantic', 'pydantic:extra-ignore', 'pydantic:extra-allow:as-is']
+
+
+def make_validator(name, pred):
+    """whatever the validator and its configuration: a request naming an unlisted parameter is refused"""
+    if name == 'base':
+        return vbase.BaseValidator(exclude_param=pred)
+    from pjrpc.server.validators import pydantic as vpd
+    if name == 'pydantic':
+        return vpd.PydanticValidator(exclude_param=pred)
+    if name == 'pydantic:extra-ignore':
+        return vpd.PydanticValidator(exclude_param=pred, extra='ignore')
+    return vpd.PydanticValidator(coerce=False, exclude_param=pred, extra='allow')
+
+
+def run_method(ctx, params, ctx_at, positional, skip, style, validator='base'):
     params = [tuple(p) for p in params]
     as_view = style == 'view'
     ctx_name = 'ctx'
@@ -112,14 +131,21 @@ def run_method(ctx, params, ctx_at, positional, skip, style):
             'by-annotation': lambda name, ann, default: ann is Injected}[skip]
     if skip:
         ctx.hit('exclusion:' + skip)
-    validator = vbase.BaseValidator(exclude_param=pred)
+    vname = validator
+    ctx.hit('validator:' + vname)
+    validator = make_validator(vname, pred)
+    # a view takes the context through its constructor: the designated context name may then coincide with an ordinary
+    # parameter of the method, which stays an ordinary (documented, client-settable) parameter
+    view_ctx = (params[0][0] if params else 'anything') if ctx_at is not None else None
+    if as_view and view_ctx and params:
+        ctx.hit('view:context-name-equals-a-parameter-name')
     try:
         if as_view:
             vsrc = 'class V(ViewMixin):\n    def __init__(self, context=None):\n        super().__init__()\n' + \
                    '\n'.join('    ' + l for l in src.splitlines())
             exec(compile(vsrc, '<vmon_c17_programs>', 'exec', dont_inherit=True), ns)
             validator.validate(ns['V'].f)
-            method = pjrpc.server.dispatcher.ViewMethod(ns['V'], 'f', 'f', context='anything' if ctx_at is not None else None)
+            method = pjrpc.server.dispatcher.ViewMethod(ns['V'], 'f', 'f', context=view_ctx)
         else:
             exec(compile(src, '<vmon_c17_programs>', 'exec', dont_inherit=True), ns)
             validator.validate(ns['f'])
@@ -151,8 +177,8 @@ def run_method(ctx, params, ctx_at, positional, skip, style):
     for kind in ('openapi', 'openrpc'):
         fam = f'{kind}:{style}'
         wit = dict(source=src, style=style, context_position=ctx_at, context_positional=positional, exclusion=skip or None,
-                   document=kind)
-        cls0 = (src, style, positional, kind)
+                   document=kind, validator=vname, view_context_name=view_ctx if as_view else None)
+        cls0 = (src, style, positional, kind, vname)
         if ctx_at is not None:
             ctx.hit(f'{kind}:context')
             if ctx_at > 0:
@@ -226,7 +252,7 @@ def run_method(ctx, params, ctx_at, positional, skip, style):
                         bad = (f'accepted-call-failed:code{code}', pobj, rdoc, tname)
                     if bad:
                         break
-                    ctx.ok(fam + (':accepted' if accepted else ':refused'), (src, style, positional, kind, sub, tname),
+                    ctx.ok(fam + (':accepted' if accepted else ':refused'), (src, style, positional, kind, sub, tname, vname),
                            sample=dict(wit, method=tname, params=pobj, response=rdoc))
                 if bad:
                     break
@@ -288,7 +314,8 @@ def gen(ctx):
                         continue
                     if not full and k % 3 and not (ctx_at not in (None, 0)):
                         continue
-                    yield 'method', dict(params=ps, ctx_at=ctx_at, positional=positional, skip=skip, style=style)
+                    yield 'method', dict(params=ps, ctx_at=ctx_at, positional=positional, skip=skip, style=style,
+                                         validator=VALIDATORS[(k // 2) % 4] if k % 3 == 0 else 'base')
 
 
 KINDS = {'method': run_method}
